@@ -10,7 +10,9 @@ SPEC = hdr_spec(
     assumptions=["legacy version-0 header files (migration) are not generated: the model returns 'migrate: not modelled' for them; empty storage is covered"],
     partial_note="for LINEAR chains (one branch, any length, any load depth >= 0) Save-then-Load observational equivalence is a theorem (C11_save_load_linear: tip, header at "
                  "every height from memory or files, height of every hash incl. pruned ones, invalid list). With side branches (sort + link of the loaded branches), repeated "
-                 "generations, consolidations and continued submissions it is checked on every generated history, not proved; migration of version-0 files is not covered.")
+                 "generations, consolidations and continued submissions it is checked on every generated history, not proved; migration of version-0 files is not covered. "
+                 "In the LINEAR WORLD (Proofs/LinearWorld: every history of tip-extending submissions of any length — across 1000-header file boundaries, the 10000-header prune depth and the automatic clean every 10000 heights — interleaved with Cleans, Saves and Loads of any depth, any number of generations) Save then Load at every generation restores tip, header at every height, height of every hash and the invalid list, branch files appended to after pruning "
+                 "included, and the loaded repository is again a linear world of the same chain (C11_linear_generations).")
 
 META = dict(
     technique="Lean 4 proof (Save/Load round trip for linear chains: exact main-file layout, loadHistoricalHashHeights specification, pruning on load; branch file write/merge/rebuild lemmas, index and invalid-list persistence) + model/implementation correspondence on dump;save;load;dump",
